@@ -21,7 +21,15 @@ func hTime(c M) M {
 	if err != nil {
 		return M{"ok": false, "err": err.Error()}
 	}
-	return M{"ok": true, "off": t.MidnightOffset().InMinutes(), "h12": !t.Format().Use24HourClock, "str": t.ToString()}
+	o := M{"ok": true, "off": t.MidnightOffset().InMinutes(), "h12": !t.Format().Use24HourClock, "str": t.ToString()}
+	// writing the value in the other notation, adding to it and comparing it are observations: the value stays what it was
+	o["alt"] = t.ToStringWithFormat(klog.TimeFormat{Use24HourClock: !t.Format().Use24HourClock})
+	t.Plus(klog.NewDuration(0, 1))
+	t.IsEqualTo(t)
+	o["str2"] = t.ToString()
+	o["h12_2"] = !t.Format().Use24HourClock
+	o["off2"] = t.MidnightOffset().InMinutes()
+	return o
 }
 
 // timeFromOffset builds a Time through the exported constructors.
@@ -184,7 +192,12 @@ func hDate(c M) M {
 	if err != nil {
 		return M{"ok": false, "err": err.Error()}
 	}
-	return M{"ok": true, "y": d.Year(), "m": d.Month(), "d": d.Day(), "str": d.ToString(), "wd": d.Weekday()}
+	o := M{"ok": true, "y": d.Year(), "m": d.Month(), "d": d.Day(), "str": d.ToString(), "wd": d.Weekday()}
+	o["alt"] = d.ToStringWithFormat(klog.DateFormat{UseDashes: !d.Format().UseDashes})
+	try(func() { d.PlusDays(1) }) // (panics by contract at the last representable date)
+	d.WeekNumber()
+	o["str2"] = d.ToString()
+	return o
 }
 
 func hDateYear(c M) M {
